@@ -378,7 +378,6 @@ func (v *view) sum(filter *Row, bitDepth uint) (sum int64, count uint64, err err
 
 // min returns the min and count of a field.
 func (v *view) min(filter *Row, bitDepth uint) (min int64, count uint64, err error) {
-	var minHasValue bool
 	for _, f := range v.allFragments() {
 		fmin, fcount, err := f.min(filter, bitDepth)
 		if err != nil {
@@ -389,15 +388,10 @@ func (v *view) min(filter *Row, bitDepth uint) (min int64, count uint64, err err
 			continue
 		}
 
-		if !minHasValue {
-			min = fmin
-			minHasValue = true
-			count += fcount
-			continue
-		}
-
-		if fmin < min {
-			min = fmin
+		// The count is the number of columns holding the minimum across all fragments.
+		if count == 0 || fmin < min {
+			min, count = fmin, fcount
+		} else if fmin == min {
 			count += fcount
 		}
 	}
@@ -411,8 +405,15 @@ func (v *view) max(filter *Row, bitDepth uint) (max int64, count uint64, err err
 		if err != nil {
 			return max, count, err
 		}
-		if fcount > 0 && fmax > max {
-			max = fmax
+		// Don't consider a max based on zero columns.
+		if fcount == 0 {
+			continue
+		}
+
+		// The count is the number of columns holding the maximum across all fragments.
+		if count == 0 || fmax > max {
+			max, count = fmax, fcount
+		} else if fmax == max {
 			count += fcount
 		}
 	}
